@@ -63,6 +63,7 @@ type interpreter struct {
 	sizes              types.Sizes            // the effective type-sizing function
 	ps                 *pathState
 	lazyInit           map[*ssa.Package]int // non-target packages: 1 = init running, 2 = init attempted
+	fmtPlus            bool                 // inside a %+v operand
 }
 
 type deferred struct {
